@@ -1,5 +1,5 @@
 """Texts for MANIFEST.json."""
-HOOK_COMMITS = []
+HOOK_COMMITS = ["da3f052"]
 NOT_APPLICABLE = {}
 NOTES = ("Every check is `./check <id> --tier quick|thorough` (python3 stdlib driver). It copies /verif/harness to a scratch dir, "
          "pins Cargo.lock from /repo, builds the path dependency /repo with --cfg tls_parser_verif under Kani, runs the property's harnesses "
